@@ -5,4 +5,9 @@ import Cppcms.C04.LemNestRel
 import Cppcms.C04.LemTokens
 import Cppcms.C04.LemAttrs
 import Cppcms.C04.LemWhitelist
+import Cppcms.C04.LemFrames
+import Cppcms.C04.LemGood
+import Cppcms.C04.LemRuleLoop
+import Cppcms.C04.LemSecondRun
+import Cppcms.C04.LemStable
 /-! C04 helper lemmas (aggregator).  The parts live in `Lem*.lean`; none imports Mathlib. -/
